@@ -116,6 +116,20 @@ def _r121(ctx: Ctx) -> None:
            len(uncond) >= 1 and _writes_precede(fn, opens, uncond[0] if uncond else None),
            'the destination is not (unconditionally) replaced by the completely written temporary file',
            key='save_json|replace', facts=[ast.unparse(r) for r in reps])
+    # the destination is never deleted / moved away: between the deletion and the rename neither the old nor the
+    # new results exist
+    dels = [n for n in walk_no_nested(fn) if isinstance(n, ast.Call)
+            and (ast.unparse(n.func) in ('os.remove', 'os.unlink', 'os.truncate', 'shutil.move', 'shutil.rmtree', 'os.rmdir')
+                 or (isinstance(n.func, ast.Attribute) and n.func.attr in ('unlink', 'rmtree')))]
+    bad_del = [d for d in dels if any(isinstance(x, ast.Name) and x.id in aliases
+                                      for a_ in (list(d.args[:1]) + ([d.func.value] if isinstance(d.func, ast.Attribute) and
+                                                                      d.func.attr == 'unlink' else []))
+                                      for x in ast.walk(a_))]
+    ctx.ob('R12.1', site_of(mi, bad_del[0]) if bad_del else site,
+           'save_json: the destination is only ever replaced, never deleted first', not bad_del,
+           f'{norm_stmt(bad_del[0]) if bad_del else ""} removes the results file before the new one is in place: a '
+           f'process killed in between leaves no results file at all (the resume starts from zero)',
+           key='save_json|no-delete', facts=[norm_stmt(d) for d in dels])
     # no other truncating open of a results path in the simulation package
     for mod in m.modules.values():
         if not mod.name.startswith('panqec.simulation'):
@@ -509,6 +523,7 @@ def run(ctx: Ctx) -> None:
     ctx.rule('R12.3', 'resume identity = equality of the whole inputs; loaded lists are assigned for own keys only', floor=20)
     ctx.rule('R12.4', 'each trial guarded by n_results < n_trials with run(1); final save after the last trial', floor=1)
     ctx.rule('R12.5', 'interrupt handler saves again and re-raises; run() absorbs it', floor=3)
+    ctx.rule('R12.6', 'nothing that reads the results file is memoised; no memoised value is written through', floor=1)
     ctx.trust('os.replace is atomic on one file system; json/gzip writers either complete or raise')
     with ctx.part():
         _r121(ctx)
@@ -525,3 +540,8 @@ def run(ctx: Ctx) -> None:
         _r124(ctx)
     with ctx.part():
         _r125(ctx)
+    from .c06 import frozen_rule, memo_io_rule
+    with ctx.part():
+        memo_io_rule(ctx, 'R12.6')
+    with ctx.part():
+        frozen_rule(ctx, 'R12.6', 'panqec.simulation')
